@@ -27,3 +27,23 @@ def check_derives(f, rep, rule):
         rep.check(sp['exp'] and 'derive(' in sp['mac'], rule, nm, 'impl is produced by #[derive]', site=sp,
                   construct='derived', facts={'macro': sp['mac']})
     rep.floor(rule, n, len(DERIVED), 'derived impls found')
+
+
+def check_frame(f, rep, rule, adts=('Foca', 'member::Member', 'member::Members', 'probe::Probe', 'broadcast::Broadcasts',
+                                    'broadcast::Entry')):
+    """Frame condition of every who-may-write rule: the fields involved cannot be written from outside the crate
+    (field visibilities as recorded by the compiler). `Members.inner` is pub(crate) - crate-internal writers are
+    enumerated by the rules themselves."""
+    rep.rule(rule, 'frame condition: no field of Foca, Member, Members, Probe, Broadcasts, Entry is `pub`, so all writers are '
+                   'inside the crate and are the ones enumerated by the who-may-write rules')
+    n = 0
+    for a in adts:
+        if a not in f.adts:
+            rep.violation(rule, a, 'missing-type', 'type not found')
+            continue
+        for v in f.adts[a]['variants']:
+            for fld in v['fields']:
+                n += 1
+                rep.check(fld['vis'] != 'Public', rule, a, 'field %s is not public' % fld['name'], construct='field-vis:' + fld['name'],
+                          facts={'vis': fld['vis']})
+    rep.floor(rule, n, 25, 'fields inspected')
